@@ -104,20 +104,52 @@ def _drive_ipm(args):
     bc = PKG['bit_config']
     r = drv.rng(seed, 'c09ipm', tid)
     msgs = []
-    for i in range(r.choice((1, 2, 3))):
+    for i in range(max(2 if blocked else 1, r.choice((1, 2, 3)))):
         m = isoc.gen_message(r, bc, isoc.SAFE, maxbits=3)
         if i == 1:
-            m['DE72'] = 'R' * (960 + tid % 50)        # a record that crosses the first block boundary
+            # a record that crosses the first block boundary, in an element that the extraction command writes out
+            for kk in [x for x in m if x.startswith('PDS') or x in ('DE48', 'DE62', 'DE123', 'DE124', 'DE125')]:
+                m.pop(kk)
+            m['PDS0165'] = ''.join('RSTUVWXYZ'[j % 9] for j in range(940 + tid % 50))
         msgs.append(m)
     data = ipmc.write_file(msgs, enc, bc, blocked)
     hi = min(hi, len(data))
     events = [ipmc.iev(1, 'given', b=data)]
+    import contextlib
+    import csv
+    import io
+    import os
+    from cardutil.cli import mci_ipm_to_csv
+    cols = PKG['output_data_elements']
     for k in range(lo, hi + 1):
         events.append(ipmc.iev(1, 'cut', n=k))
         for e in ipmc.read_all_events(1, data[:k], enc, bc, blocked):
             e.pop('_exc', None)
             events.append(e)
-    return {'tid': tid * 100 + lo // 400, 'loc': False, 'strict': False, 'cols': [], 'insts': [{'blk': blocked}], 'events': events,
+        if k % 61 == 7 and not drv.THREADED:
+            # the extraction COMMAND on the same cut file (it inspects the file first, then reads it): its CSV holds
+            # exactly the complete records, row by row
+            path = os.path.join(core.VERIF, '.work', 'c09tool-%d-%d-%d.ipm' % (os.getpid(), tid, k))
+            drv.spit(path, data[:k])
+            try:
+                with drv.Watchdog(20.0), contextlib.redirect_stdout(io.StringIO()):
+                    mci_ipm_to_csv.cli_run(in_filename=path, out_filename=path + '.csv', in_encoding=enc, no1014blocking=not blocked)
+                rows = list(csv.DictReader(io.StringIO(drv.slurp(path + '.csv', 'r', newline=''), newline='')))
+                events.append(ipmc.iev(1, 'cut', n=k))
+                for x in rows:
+                    e = ipmc.iev(1, 'csvrow')
+                    e['d'] = [{'k': isoc.pkey(kk), 'v': isoc.pval(v)} for kk, v in x.items() if v not in ('', None)]
+                    events.append(e)
+                events.append(ipmc.iev(1, 'csvend'))
+            except BaseException as ex:  # noqa
+                e = ipmc.iev(1, 'tool', out='exc')
+                e['_observed'] = drv.exc_outcome(ex)
+                events.append(e)
+            finally:
+                for q in (path, path + '.csv'):
+                    if os.path.exists(q):
+                        os.unlink(q)
+    return {'tid': tid * 100 + lo // 400, 'loc': False, 'strict': False, 'cols': [isoc.pkey(c) for c in cols], 'insts': [{'blk': blocked}], 'events': events,
             '_enc': enc, '_desc': '%s IPM file (%s) of %d bytes, %d messages, every cut %d..%d' % (
                 'blocked' if blocked else 'unblocked', enc, len(data), len(msgs), lo, hi)}
 
